@@ -393,7 +393,7 @@ Proof. destruct e; simpl; bp; try lia. pose proof (bpower_bounds o). lia. Qed.
 
 Definition Main (n : nat) : Prop :=
   forall e, (size e <= n)%nat -> ok e ->
-  forall rbp rest res, 0 <= rbp -> rbp < lbp_top e -> stops (rlevel e) rest ->
+  forall rbp rest res, 0 <= rbp <= bpUnaryPrefix -> rbp < lbp_top e -> stops (rlevel e) rest ->
   LL rbp e rest res -> PE rbp (pr e ++ rest) res.
 
 Lemma stops_closer : forall a t r, lbp_of t = 0 -> 0 <= a -> stops a (t :: r).
@@ -401,13 +401,13 @@ Proof. intros. simpl. lia. Qed.
 
 (* an operand, parenthesised or bare *)
 Lemma operand : forall n, Main n -> forall x, (size x <= n)%nat -> ok x ->
-  forall b rbp rest res, 0 <= rbp ->
+  forall b rbp rest res, 0 <= rbp <= bpUnaryPrefix ->
   (b = false -> rbp < lbp_top x /\ stops (rlevel x) rest) ->
   LL rbp x rest res -> PE rbp (paren_if b (pr x) ++ rest) res.
 Proof.
   intros n IH x Hs Hok b rbp rest res H0 Hb HL. destruct b; simpl.
   - rewrite <- app_assoc. simpl. eapply PE_paren; [|exact HL].
-    apply IH; try assumption; try lia.
+    apply IH; try assumption; try (bp; lia).
     + pose proof (lbp_top_pos x). lia.
     + apply stops_closer; [reflexivity|apply rlevel_nonneg].
     + apply loop_stop; [lia|]. apply stops_closer; [reflexivity|lia].
@@ -447,7 +447,7 @@ Proof.
     { unfold R. destruct more; simpl; split; try lia; intros; discriminate. }
     destruct Hstop as [Hstop HnotColon].
     assert (Ha : PE 0 (pr a ++ R) (a, R)).
-    { apply IH; try assumption; try lia.
+    { apply IH; try assumption; try (bp; lia).
       - pose proof (lbp_top_pos a). lia.
       - eapply stops_mono; [exact Hstop|apply rlevel_nonneg].
       - apply loop_stop; [lia|exact Hstop]. }
@@ -489,7 +489,7 @@ Proof.
   { destruct (left_assoc o); [apply Z.ltb_ge in Hb|apply Z.leb_gt in Hb]; split; try lia; discriminate. }
   destruct Hp as [Hp1 Hp2].
   pose proof (bpower_bounds o) as Hbo. pose proof (bprec_range o) as Hpo.
-  pose proof (lbp_top_ge l) as Hl. pose proof (pw_mono _ _ ltac:(lia) Hp1) as Hm. rewrite pw_bprec in Hm.
+  pose proof (lbp_top_ge l) as Hl. pose proof (pw_mono (bprec o) (prec l) ltac:(lia) Hp1) as Hm. rewrite pw_bprec in Hm.
   split; [lia|].
   destruct l; simpl in *; bp; try lia.
   - destruct (z <? 0); lia.
@@ -515,13 +515,204 @@ Proof.
   pose proof (lbp_top_ge r) as Hl.
   assert (Hq : q < pw (prec r) /\ (prec r <= 11 -> q <= pw (prec r) - 1)).
   { unfold q. rewrite left_right_assoc in Hb. destruct (right_assoc o); simpl in Hb.
-    - apply Z.ltb_ge in Hb. pose proof (pw_mono _ _ ltac:(lia) Hb) as Hm. rewrite pw_bprec in Hm. lia.
-    - apply Z.leb_gt in Hb. pose proof (pw_step _ _ ltac:(lia) Hb ltac:(lia)) as Hm. rewrite pw_bprec in Hm. lia. }
+    - apply Z.ltb_ge in Hb. pose proof (pw_mono (bprec o) (prec r) ltac:(lia) Hb) as Hm. rewrite pw_bprec in Hm. lia.
+    - apply Z.leb_gt in Hb. pose proof (pw_step (bprec o) (prec r) ltac:(lia) Hb ltac:(lia)) as Hm. rewrite pw_bprec in Hm. lia. }
   destruct Hq as [Hq1 Hq2]. split; [lia|].
+  assert (Hq3 : 29 <= q <= 120) by (unfold q; destruct (right_assoc o); lia).
+  assert (Hq4 : right_assoc o = true -> q = 59).
+  { intros E. unfold q. rewrite E. apply right_assoc_prec in E. rewrite <- pw_bprec, E. reflexivity. }
   destruct r; simpl in *; bp; try lia.
   - destruct (z <? 0); lia.
   - rewrite pw_bprec in *. pose proof (bprec_range o0). destruct (right_assoc o0) eqn:Era; [|lia].
     specialize (Hq2 ltac:(lia)). lia.
   - destruct (match o0 with UMove => true | _ => match r with EUn _ _ => ends_in_move r | _ => false end end); lia.
-  - (* ECond is never bare *) unfold pw in Hq1. simpl in Hq1. lia.
 Qed.
+
+(* ---- bare operands of the other operators ---- *)
+Lemma bare_high : forall p x, pUnaryPrefix <= p -> bare p x = true -> bpUnaryPostfix <= lbp_top x.
+Proof.
+  intros p x Hp Hb. destruct (bare_prec _ _ Hb) as [H|[_ H]]; destruct x; simpl in *; bp; try lia.
+  all: pose proof (bprec_range o); lia.
+Qed.
+
+Lemma un_operand_level : forall o x,
+  bare pUnaryPrefix x = true -> rlevel (EUn o x) <= rlevel x.
+Proof.
+  intros o x Hb. destruct (bare_prec _ _ Hb) as [H|[H _]]; [|bp; lia].
+  destruct x; simpl in H; bp; try lia.
+  all: try (pose proof (bprec_range o0); lia).
+  all: unfold rlevel; destruct o; simpl;
+    repeat match goal with |- context [if ?c then _ else _] => destruct c end; bp; lia.
+Qed.
+
+Lemma un_own_level : forall o x, rlevel (EUn o x) <= (match o with UMove => bpMove | _ => bpUnaryPrefix end).
+Proof.
+  intros. unfold rlevel. destruct o; simpl; try (destruct (match x with EUn _ _ => ends_in_move x | _ => false end)); bp; lia.
+Qed.
+
+Lemma app_assoc3 : forall (a b c : list tok), (a ++ b) ++ c = a ++ b ++ c.
+Proof. intros. rewrite app_assoc. reflexivity. Qed.
+
+Theorem main_all : forall n, Main n.
+Proof.
+  induction n as [|n IH]; intros e Hs Hok rbp rest res Hr Hlt Hst HL.
+  { destruct e; simpl in Hs; lia. }
+  assert (IHop := operand n IH).
+  destruct e.
+  - (* EId *) simpl. eapply PE_atom; [intros; rewrite parse_expr_S; reflexivity|exact HL].
+  - (* EInt *) simpl pr. destruct (Z.ltb_spec z 0).
+    + simpl app. eapply (PE_prefix rbp bpUnaryPrefix (TBin OSub) fold_minus (EInt (- z)) (TInt (- z) :: rest) rest).
+      * intros. rewrite parse_expr_S. reflexivity.
+      * eapply PE_atom; [intros; rewrite parse_expr_S; reflexivity|].
+        apply loop_stop; [bp; lia|]. simpl in Hst. destruct (Z.ltb_spec z 0); [exact Hst|lia].
+      * simpl. destruct (Z.ltb_spec 0 (- z)); [|lia]. replace (- - z) with z by lia. exact HL.
+    + simpl app. eapply PE_atom; [intros; rewrite parse_expr_S; reflexivity|exact HL].
+  - (* EBool *) destruct b; simpl; (eapply PE_atom; [intros; rewrite parse_expr_S; reflexivity|exact HL]).
+  - (* ENil *) simpl. eapply PE_atom; [intros; rewrite parse_expr_S; reflexivity|exact HL].
+  - (* EStr *) simpl. eapply PE_atom; [intros; rewrite parse_expr_S; reflexivity|exact HL].
+  - (* EBin *)
+    simpl in Hs. destruct Hok as [Hok1 Hok2]. simpl in Hlt. rewrite rlevel_bin in Hst.
+    simpl pr. rewrite !app_assoc3.
+    apply IHop; [lia|exact Hok1|exact Hr| |].
+    + intros Hb. destruct (bin_left_bare o e1 rbp Hb Hlt) as [H1 H2]. split; [exact H1|]. simpl. exact H2.
+    + simpl app. eapply LL_bin; [exact Hlt| |exact HL].
+      apply IHop; [lia|exact Hok2| | |].
+      * pose proof (bpower_bounds o). destruct (right_assoc o); bp; lia.
+      * intros Hb. destruct (bin_right_bare o e2 Hb) as [H1 H2]. split; [exact H1|].
+        eapply stops_mono; [exact Hst|exact H2].
+      * apply loop_stop; [pose proof (bpower_bounds o); destruct (right_assoc o); lia|exact Hst].
+  - (* EUn *)
+    simpl in Hs. destruct Hok as [Hok1 Hok2].
+    set (q := match o with UMove => bpMove | _ => bpUnaryPrefix end).
+    assert (Hq : 0 <= q <= bpUnaryPrefix) by (unfold q; destruct o; bp; lia).
+    assert (Hstq : stops q rest) by (eapply stops_mono; [exact Hst|apply un_own_level]).
+    assert (Hx : PE q (paren_if (needs_parens pUnaryPrefix (prec e)) (pr e) ++ rest) (e, rest)).
+    { apply IHop; [lia|exact Hok1|exact Hq| |].
+      - intros Hb0. assert (Hb : bare pUnaryPrefix e = true) by (unfold bare; rewrite Hb0; reflexivity).
+        split.
+        + pose proof (bare_high pUnaryPrefix e ltac:(lia) Hb). unfold q. destruct o; bp; lia.
+        + eapply stops_mono; [exact Hst|]. apply un_operand_level. exact Hb.
+      - apply loop_stop; [lia|exact Hstq]. }
+    simpl pr. simpl app.
+    destruct o.
+    + (* minus *)
+      eapply (PE_prefix rbp bpUnaryPrefix (TBin OSub) fold_minus e); [intros; rewrite parse_expr_S; reflexivity|exact Hx|].
+      assert (Hf : fold_minus e = EUn UMinus e).
+      { destruct e; try reflexivity. simpl. specialize (Hok2 eq_refl z eq_refl).
+        destruct (Z.ltb_spec 0 z); [lia|reflexivity]. }
+      rewrite Hf. exact HL.
+    + eapply (PE_prefix rbp bpUnaryPrefix TBang (EUn UNot) e); [intros; rewrite parse_expr_S; reflexivity|exact Hx|exact HL].
+    + eapply (PE_prefix rbp bpMove TMove (EUn UMove) e); [intros; rewrite parse_expr_S; reflexivity|exact Hx|exact HL].
+    + eapply (PE_prefix rbp bpUnaryPrefix (TBin OMul) (EUn UDeref) e); [intros; rewrite parse_expr_S; reflexivity|exact Hx|exact HL].
+  - (* ECond *)
+    simpl in Hs. destruct Hok as (Hok1 & Hok2 & Hok3). simpl in Hlt, Hst.
+    simpl pr. rewrite !app_assoc3.
+    apply IHop; [lia|exact Hok1|exact Hr| |].
+    + intros Hb. apply Z.leb_gt in Hb. pose proof (lbp_top_ge e1) as Hl.
+      pose proof (prec_range e1). pose proof (pw_step pTernary (prec e1) ltac:(bp; lia) Hb ltac:(lia)) as Hs1.
+      change (pw pTernary) with 20 in Hs1.
+      split; [bp; lia|]. simpl.
+      destruct e1; simpl in *; bp; try lia.
+      * destruct (z <? 0); lia.
+      * pose proof (bpower_bounds o). destruct (right_assoc o); lia.
+      * destruct (match o with UMove => true | _ => match e1 with EUn _ _ => ends_in_move e1 | _ => false end end); lia.
+    + simpl app. eapply LL_cond; [exact Hlt| | |exact HL].
+      * rewrite <- ?app_assoc. simpl app. apply IHop; [lia|exact Hok2|bp; lia| |].
+        -- intros _. split; [pose proof (lbp_top_pos e2); lia|]. apply stops_closer; [reflexivity|apply rlevel_nonneg].
+        -- apply loop_stop; [lia|]. apply stops_closer; [reflexivity|lia].
+      * assert (Hne : (prec e3 <? pTernary) = false) by (apply Z.ltb_ge; pose proof (prec_range e3); bp; lia).
+        rewrite Hne. simpl paren_if.
+        apply IH; [lia|exact Hok3|bp; lia|pose proof (lbp_top_pos e3); lia| |].
+        -- eapply stops_mono; [exact Hst|apply rlevel_nonneg].
+        -- apply loop_stop; [lia|exact Hst].
+  - (* ECast *)
+    simpl in Hs. destruct Hok as [Hok1 Hfit]. simpl in Hlt.
+    simpl pr. rewrite app_assoc3.
+    apply IHop; [lia|exact Hok1|exact Hr| |].
+    + intros Hb0. assert (Hb : bare pCasting e = true) by (unfold bare; rewrite Hb0; reflexivity). split.
+      * destruct (bare_prec _ _ Hb) as [H|[H _]]; [|bp; lia].
+        pose proof (lbp_top_ge e). pose proof (pw_mono pCasting (prec e) ltac:(bp; lia) H) as Hm.
+        unfold pw in Hm at 1. simpl in Hm. lia.
+      * simpl. apply Hfit. exact Hb.
+    + simpl app. apply LL_cast; [exact Hlt|exact HL].
+  - (* EForce *)
+    simpl in Hs. destruct Hok as [Hok1 Hfit]. simpl in Hlt.
+    simpl pr. rewrite app_assoc3.
+    apply IHop; [lia|exact Hok1|exact Hr| |].
+    + intros Hb0. assert (Hb : bare pUnaryPostfix e = true) by (unfold bare; rewrite Hb0; reflexivity). split.
+      * pose proof (bare_high pUnaryPostfix e ltac:(bp; lia) Hb). bp; lia.
+      * simpl. apply Hfit. exact Hb.
+    + simpl app. apply LL_force; [exact Hlt|exact HL].
+  - (* EMember *)
+    simpl in Hs. destruct Hok as [Hok1 Hfit]. simpl in Hlt.
+    simpl pr. rewrite app_assoc3.
+    apply IHop; [lia|exact Hok1|exact Hr| |].
+    + intros Hb0. assert (Hb : bare pAccess e = true) by (unfold bare; rewrite Hb0; reflexivity). split.
+      * pose proof (bare_high pAccess e ltac:(bp; lia) Hb). bp; lia.
+      * destruct opt; simpl; apply Hfit; exact Hb.
+    + simpl app. apply LL_member; [exact Hlt|exact HL].
+  - (* EIndex *)
+    simpl in Hs. destruct Hok as (Hok1 & Hok2 & Hfit). simpl in Hlt.
+    simpl pr. rewrite !app_assoc3.
+    apply IHop; [lia|exact Hok1|exact Hr| |].
+    + intros Hb0. assert (Hb : bare pAccess e1 = true) by (unfold bare; rewrite Hb0; reflexivity). split.
+      * pose proof (bare_high pAccess e1 ltac:(bp; lia) Hb). bp; lia.
+      * simpl. apply Hfit. exact Hb.
+    + simpl app. eapply LL_index; [exact Hlt| |exact HL].
+      rewrite <- ?app_assoc. simpl app. apply IH; [lia|exact Hok2|bp; lia|pose proof (lbp_top_pos e2); lia| |].
+      * apply stops_closer; [reflexivity|apply rlevel_nonneg].
+      * apply loop_stop; [lia|]. apply stops_closer; [reflexivity|lia].
+  - (* EInvoke *)
+    rewrite size_invoke in Hs. apply ok_invoke in Hok. destruct Hok as (Hok1 & Hfit & Hoka). simpl in Hlt.
+    rewrite pr_invoke. rewrite !app_assoc3.
+    apply IHop; [lia|exact Hok1|exact Hr| |].
+    + intros Hb0. assert (Hb : bare pAccess e = true) by (unfold bare; rewrite Hb0; reflexivity). split.
+      * pose proof (bare_high pAccess e ltac:(bp; lia) Hb). bp; lia.
+      * simpl. apply Hfit. exact Hb.
+    + simpl app. eapply LL_invoke; [exact Hlt| |exact HL].
+      rewrite <- ?app_assoc. simpl app. apply (args_ok n IH); [lia|exact Hoka].
+Qed.
+
+(* ------------------------------------------------------------------ the round-trip theorem *)
+Theorem print_parse_roundtrip : forall e, ok e ->
+  exists f0, forall f, (f0 <= f)%nat -> parse_expr f 0 (pr e) = Some (e, []).
+Proof.
+  intros e Hok.
+  destruct (main_all (size e) e (le_n _) Hok 0 [] (e, [])) as [F HF].
+  - bp; lia.
+  - pose proof (lbp_top_pos e). lia.
+  - exact I.
+  - apply loop_stop; [lia|exact I].
+  - rewrite app_nil_r in HF. exists F. intros f Hf. exact (proj1 (fuel_mono F f Hf) _ _ _ HF).
+Qed.
+
+(* the boolean guard implies the guard *)
+Lemma fitsb_fits : forall p l x, fitsb p l x = true -> fits p l x.
+Proof.
+  intros p l x H Hb. unfold fitsb in H. rewrite Hb in H. simpl in H. apply Z.leb_le in H. exact H.
+Qed.
+
+Lemma okb_ok : forall n e, (size e <= n)%nat -> okb e = true -> ok e.
+Proof.
+  induction n as [|n IH]; intros e Hs H; [destruct e; simpl in Hs; lia|].
+  destruct e; try exact I.
+  - simpl in Hs. simpl in H. apply andb_true_iff in H. destruct H. simpl. split; apply IH; try assumption; lia.
+  - simpl in Hs. simpl in H. apply andb_true_iff in H. destruct H as [H1 H2]. simpl. split; [apply IH; [lia|exact H1]|].
+    intros -> z ->. apply Z.leb_le in H2. exact H2.
+  - simpl in Hs. simpl in H. rewrite !andb_true_iff in H. destruct H as [[H1 H2] H3]. simpl. repeat split; apply IH; try assumption; lia.
+  - simpl in Hs. simpl in H. apply andb_true_iff in H. destruct H as [H1 H2]. simpl. split; [apply IH; [lia|exact H1]|apply fitsb_fits; exact H2].
+  - simpl in Hs. simpl in H. apply andb_true_iff in H. destruct H as [H1 H2]. simpl. split; [apply IH; [lia|exact H1]|apply fitsb_fits; exact H2].
+  - simpl in Hs. simpl in H. apply andb_true_iff in H. destruct H as [H1 H2]. simpl. split; [apply IH; [lia|exact H1]|apply fitsb_fits; exact H2].
+  - simpl in Hs. simpl in H. rewrite !andb_true_iff in H. destruct H as [[H1 H2] H3]. simpl.
+    split; [apply IH; [lia|exact H1]|]. split; [apply IH; [lia|exact H2]|apply fitsb_fits; exact H3].
+  - rewrite size_invoke in Hs. apply ok_invoke.
+    simpl in H. rewrite !andb_true_iff in H. destruct H as [[H1 H2] H3].
+    split; [apply IH; [lia|exact H1]|]. split; [apply fitsb_fits; exact H2|].
+    assert (Hsa : (size_args args <= n)%nat) by lia. clear Hs H1 H2.
+    induction args as [|[lab a] rest IHa]; [exact I|].
+    simpl in H3, Hsa. apply andb_true_iff in H3. destruct H3 as [Ha Hr]. simpl.
+    split; [apply IH; [lia|exact Ha]|apply IHa; [exact Hr|lia]].
+Qed.
+
+Theorem okb_sound : forall e, okb e = true -> ok e.
+Proof. intros e. apply (okb_ok (size e)). apply le_n. Qed.
